@@ -16,6 +16,12 @@ from rvlib import *  # noqa
 import grammars as GR
 from common import TRUSTED_BASE
 import c03 as C3
+import bytecommon as BC
+
+
+class ByteShape:
+    def __init__(self, shape):
+        self.shape = shape
 
 LEVEL = "other"
 HEADER = "From RV Require Import Model.ForestCheck.\nOpen Scope nat_scope.\n"
@@ -133,6 +139,30 @@ def run(rep, tier, seed):
                           flags=dict(ps=0, pse=0, partial=0), meta=dict(gi=gi, side="LR", shape=g.shape)))
         cases.append(Case("G%d" % gi, g.text(inline=inline), texts, algo="GLR", table="LALR_RN", run="GLR",
                           flags=dict(ps=0, pse=0, go=0), meta=dict(gi=gi, side="GLR", shape=g.shape)))
+    # ---- byte-level family: string/regex terminals, multi-byte text, Layout rules (whitespace, comments) with EMPTY
+    # productions; both parsers get the same lexical strategies (longest match as drawn, grammar order on), so the
+    # GLR parser is lexically as deterministic as the LR parser; same scope test (GLR probe, zero conflicts)
+    bcases, btexts, bgl = BC.make_byte_cases(tier, seed, 7, n_random=70 if tier == "quick" else 500, layout_prob=0.6,
+                                             partial_prob=0.0)
+    bprobe = [Case("bp%d" % k, c.grammar, [], algo="GLR", table="LALR_PAGER", run="NONE",
+                   flags=dict(ps=0, pse=0, ms=c.flags["ms"]), meta=dict(k=k)) for k, c in enumerate(bcases)]
+    n_byte_scope = 0
+    for r in run_cases(bprobe, "c07bprobe"):
+        if not (r.status == "OK" and r.dump is not None and r.dump.conflicts == 0 and not r.dump.missing_rec):
+            continue
+        k = r.case.meta["k"]
+        c = bcases[k]
+        gi = len(gs)
+        gs.append(ByteShape("byte:" + c.meta["shape"]))
+        inscope.append(gi)
+        n_byte_scope += 1
+        texts = [t[0] for t in btexts[k]]
+        words_of[gi], texts_of[gi] = [(t,) for t in texts], texts
+        fl = dict(ps=0, pse=0, ms=c.flags["ms"], lm=c.flags["lm"], go=1, skipws=c.flags["skipws"], partial=0)
+        cases.append(Case("L%d" % gi, c.grammar, texts, algo="LR", table="LALR_PAGER", run="LR", flags=fl,
+                          meta=dict(gi=gi, side="LR", shape=gs[gi].shape)))
+        cases.append(Case("G%d" % gi, c.grammar, texts, algo="GLR", table="LALR_RN", run="GLR", flags=fl,
+                          meta=dict(gi=gi, side="GLR", shape=gs[gi].shape)))
     results = run_cases(cases, "c07")
     by = {}
     for r in results:
@@ -161,7 +191,8 @@ def run(rep, tier, seed):
     shapes, samples = {}, []
     for gi, i, a, b in pairs:
         g = gs[gi]
-        base = dict(grammar=by[(gi, "LR")].case.grammar, input=texts_of[gi][i], tokens=" ".join(words_of[gi][i]))
+        base = dict(grammar=by[(gi, "LR")].case.grammar, flags=by[(gi, "LR")].case.flags, input=texts_of[gi][i],
+                    tokens=" ".join(words_of[gi][i]))
         n_inputs += 1
         if a["kind"] not in ("OK", "ERR") or b["kind"] not in ("OK", "ERR"):
             fnd.add("runtime-" + (a["kind"] if a["kind"] not in ("OK", "ERR") else b["kind"]).lower(),
@@ -234,7 +265,7 @@ def run(rep, tier, seed):
              "sentences <= %d tokens, sampled longer sentences, mutated non-sentences, the empty input, rendered with "
              "varying whitespace/newlines; non-trivial = inputs both runtimes accepted and whose trees were compared "
              "(spans, values) in Coq" % maxlen,
-        grammars_generated=len(gs), grammars_in_scope=len(inscope), grammars_with_conflicts=n_conf,
+        grammars_generated=len(gs), grammars_in_scope=len(inscope), byte_level_grammars_in_scope=n_byte_scope, grammars_with_conflicts=n_conf,
         grammars_compiler_error=n_err, shapes=shapes,
         inputs_accepted_by_both=n_ok, inputs_rejected_by_both=n_err_in, trees_compared=n_cmp,
         trees_with_elided_children=n_rn, expected_set_differs_same_position=n_exp_diff, samples=samples)
@@ -274,8 +305,9 @@ def eval_trees(jobs, per_file=None):
 def replay(rep, path):
     p = json.load(open(path))
     inp = p.get("input", "")
-    cs = [Case("L", p["grammar"], [inp], algo="LR", table="LALR_PAGER", run="LR", flags=dict(ps=0, pse=0, partial=0)),
-          Case("G", p["grammar"], [inp], algo="GLR", table="LALR_RN", run="GLR", flags=dict(ps=0, pse=0, go=0))]
+    fl = p.get("flags")
+    cs = [Case("L", p["grammar"], [inp], algo="LR", table="LALR_PAGER", run="LR", flags=fl or dict(ps=0, pse=0, partial=0)),
+          Case("G", p["grammar"], [inp], algo="GLR", table="LALR_RN", run="GLR", flags=fl or dict(ps=0, pse=0, go=0))]
     rl, rg = run_cases(cs, "c07replay", shards=1)
     a, b = rl.results.get(("LR", 0)), rg.results.get(("GLR", 0))
     print("LR     :", (a or rl.status)[:1500])
